@@ -208,9 +208,8 @@ def _bbox_cases(q, base):
             # quick: every rotation with a covering set of (centre, limits) pairs, every limits tuple with a covering
             # set of rotations (full product in thorough)
             cl = [(c, l) for c in centers[dim] for l in lims]
-            step_r = max(1, len(rots) // 6)
             for i, rot in enumerate(rots):
-                for j in range(i % 7, len(cl), 7):
+                for j in range(i % 13, len(cl), 13):
                     c, l = cl[j]
                     add(dim, rot, c, l, fr)
         else:
@@ -717,7 +716,7 @@ def _post_cases(q, base):
 
 
 # =====================================================================================================================
-# pipeline (P): hand-given optimisation results -> ROMC.estimate_regions -> posterior
+# pipeline (P): hand-given optimisation results -> ROMC.estimate_regions -> posterior;  e2e (P): real small ROMC runs
 # =====================================================================================================================
 def sim_shift(*args, batch_size=1, random_state=None):
     """theta + standard normal noise, one column per parameter (used by the pipeline / e2e toy models)."""
@@ -744,109 +743,94 @@ def _romc_model(prior_name, observed):
     return m
 
 
-class _RecObjective:
-    """f(theta) = f0 + (theta-c)^T A (theta-c); records the probes made while its region is being built."""
+class _Quadratic:
+    """f(theta) = f0 + (theta-c)^T A (theta-c)."""
 
     def __init__(self, spec):
         self.c = np.array(spec['c'], dtype=float)
         self.f0 = float(spec['f0'])
         self.A = np.array(spec['A'], dtype=float)
-        self.recording = False
-        self.probes = []
 
-    def value(self, th):
+    def __call__(self, th):
         v = np.asarray(th, dtype=float) - self.c
         return float(self.f0 + v @ self.A @ v)
 
-    def __call__(self, th):
-        val = self.value(th)
-        if self.recording:
-            self.probes.append((np.array(th, dtype=float), val))
-        return val
 
-
-def _pipe_setup(case):
-    import elfi
-    from elfi.methods.inference.romc import OptimisationProblem, RomcOptimisationResult
+def _problem_class():
+    from elfi.methods.inference.romc import OptimisationProblem
 
     class Problem(OptimisationProblem):
-        # the documented extension point (custom_optim_class); only marks the build phase for the probe recorder
+        """The documented extension point (custom_optim_class).  Behaviour unchanged; it only records the objective
+        evaluations made while the region of this problem is being built."""
+
         def build_region(self, **kw):
-            self.objective.recording = True
+            orig = self.objective
+            rec = []
+
+            def recorded(th):
+                v = orig(th)
+                rec.append((np.array(th, dtype=float), float(v)))
+                return v
+            self.objective = recorded
             try:
                 return super().build_region(**kw)
             finally:
-                self.objective.recording = False
-
-    dim = ref.PRIOR_DIM[case['prior']]
-    m = _romc_model(case['prior'], [0.0] * dim)
-    romc = elfi.ROMC(m, bounds=[(-3.0, 3.0)] * dim, discrepancy_name='d', custom_optim_class=Problem)
-    objs, probs = [], []
-    n = len(case['problems'])
-    for ind, spec in enumerate(case['problems']):
-        f = _RecObjective(spec)
-        objs.append(f)
-        pr = Problem(ind, ind + 1, list(romc.model_prior.parameter_names), 'd', f, dim, romc.model_prior, n, romc.bounds)
-        pr.state['attempted'] = True
-        if spec.get('solved', True):
-            pr.state['solved'] = True
-            pr.result = RomcOptimisationResult(f.c.copy(), f.value(f.c), 2.0 * f.A)
-        probs.append(pr)
-    romc.optim_problems = probs
-    romc.inference_args['N1'] = n
-    romc.inference_state['_has_solved_problems'] = True
-    romc.inference_state['attempted'] = [True] * n
-    romc.inference_state['solved'] = [bool(s.get('solved', True)) for s in case['problems']]
-    return romc, objs, dim
+                self.objective = orig
+                self.c19_probes = rec
+    return Problem
 
 
 NEAR = 1e-6     # local surrogates are regressions: points whose true distance is this close to the cut-off are free
 
 
-@guarded('C19')
-def run_pipe(case):
-    romc, objs, dim = _pipe_setup(case)
-    K, eta, rep_lim = case['K'], float(case['eta']), case['rep_lim']
+def _judge_romc(tag, case, romc, values, dim, fit, n2):
+    """Oracle shared by pipeline and e2e.  values[i](theta) = the distance of problem i computed by the harness."""
+    K, eta = case['K'], float(case['eta'])
     eps_f, eps_r, eps_c = float(case['eps_filter']), float(case['eps_region']), float(case['eps_cutoff'])
-    fit = bool(case['fit_models'])
-    np.random.seed(case['np_seed'])
-    with _quiet():
-        romc.estimate_regions(eps_filter=eps_f, use_surrogate=False,
-                              region_args={'K': K, 'eta': eta, 'rep_lim': rep_lim}, fit_models=fit,
-                              fit_models_args={'nof_samples': case.get('nof_samples', 20)},
-                              eps_region=eps_r, eps_cutoff=eps_c)
     post = romc.posterior
-    acc_ref = [bool(s.get('solved', True)) and objs[i].value(objs[i].c) < eps_f for i, s in enumerate(case['problems'])]
+    probs = romc.optim_problems
+    acc_ref = []
+    for pr in probs:
+        solved = bool(pr.state['solved']) and pr.result is not None
+        acc_ref.append(bool(solved and pr.result.f_min < eps_f))
     acc_idx = [i for i, a in enumerate(acc_ref) if a]
     if [bool(a) for a in romc.inference_state['accepted']] != acc_ref:
-        return bad('C19:pipeline:accepted-not-solved-and-below-eps-filter',
+        return bad('C19:%s:accepted-not-solved-and-below-eps-filter' % tag,
                    {'accepted': list(romc.inference_state['accepted']), 'expected': acc_ref})
     if len(post.regions) != len(acc_idx) or len(post.funcs) != len(acc_idx):
-        return bad('C19:pipeline:posterior-regions-not-one-per-accepted-problem',
+        return bad('C19:%s:posterior-regions-not-one-per-accepted-problem' % tag,
                    {'n_regions': len(post.regions), 'accepted': acc_ref})
     if bool(post.surrogate_used) != fit:
-        return bad('C19:pipeline:surrogate-flag', {'surrogate_used': bool(post.surrogate_used), 'fit_models': fit})
+        return bad('C19:%s:surrogate-flag' % tag, {'surrogate_used': bool(post.surrogate_used), 'fit_models': fit})
     g = eta / 2 ** (K + 1) / SUB
     frames = []
     # (1) every region against the probes of its own objective
     for k, i in enumerate(acc_idx):
         b = post.regions[k]
         R, c, lim = np.array(b.rotation, dtype=float), np.array(b.center, dtype=float), np.array(b.limits, dtype=float)
-        f = objs[i]
+        x0 = np.array(probs[i].result.x_min, dtype=float)
         obs = {'n_boxes': 1, 'rotation': R, 'center': c, 'limits': lim,
-               'probes': [(tuple(np.round((th - f.c) / g, 3).tolist()), 0 if val < eps_r else 1) for th, val in f.probes]}
-        v = _build_check(case, obs, g, eta, f.c)
+               'probes': [(tuple(np.round((th - x0) / g, 3).tolist()), 0 if val < eps_r else 1)
+                          for th, val in probs[i].c19_probes]}
+        v = _build_check(case, obs, g, eta, x0)
         if v:
-            return bad('C19:pipeline:region:' + v[0], dict(v[1], problem=i, **_build_describe(obs, g)))
+            return bad('C19:%s:region:%s' % (tag, v[0]), dict(v[1], problem=i, **_build_describe(obs, g)))
         eff = [tuple(map(float, r_)) for r_ in lim]
         frames.append((R, c, eff, 1e-9 * ref.box_scale(c, eff)))
+        if fit:
+            # the local surrogate objective of this region, evaluated directly at the optimum
+            ls = probs[i].local_surrogates
+            if ls is None or len(ls) != len(probs[i].regions) or post.funcs[k] is not ls[0]:
+                return bad('C19:%s:local-surrogate-not-the-posterior-objective-of-its-region' % tag, {'problem': i})
+            sv = float(ls[0](x0.copy()))
+            if abs(sv - values[i](x0.copy())) > NEAR / 10:
+                return ok(outcome='local-surrogate-inaccurate', trivial=True, surrogate_inaccurate=1)
     n = 0
     # (2) unnormalised density on the grid
     pts = _grid(case)
-    if pts:
-        got = np.asarray(romc.eval_unnorm_posterior(np.array(pts, dtype=float)), dtype=float)
-        if got.shape != (len(pts),):
-            return bad('C19:pipeline:pdf:shape', {'shape': list(got.shape)})
+    got = np.asarray(romc.eval_unnorm_posterior(np.array(pts, dtype=float)), dtype=float)
+    if got.shape != (len(pts),):
+        return bad('C19:%s:pdf:shape' % tag, {'shape': list(got.shape)})
     vals = []
     for kk, th in enumerate(pts):
         n += 1
@@ -854,7 +838,7 @@ def run_pipe(case):
         lo = hi = 0
         ds = []
         for k, i in enumerate(acc_idx):
-            d = objs[i].value(th)
+            d = values[i](np.array(th, dtype=float))
             ds.append(d)
             R, c, eff, margin = frames[k]
             if not fit:
@@ -872,21 +856,20 @@ def run_pipe(case):
         gk = float(got[kk])
         vals.append(gk)
         if not any(_close(gk, pr * cnt, 1e-9 if fit else RTOL) for cnt in range(lo, hi + 1)):
-            return bad('C19:pipeline:pdf:not-prior-times-count-of-accepted-problems',
+            return bad('C19:%s:pdf:not-prior-times-count-of-accepted-problems' % tag,
                        {'theta': th, 'got': gk, 'prior_density': pr, 'admissible_counts': [lo, hi],
                         'distances_of_accepted': ds, 'accepted': acc_ref, 'eps_cutoff': eps_c, 'local_surrogates': fit})
     # (3) samples and weights through ROMC.sample
     nz = 0
-    n2 = case['n2']
     if acc_idx and n2:
-        np.random.seed(case['np_seed'] + 1)
+        np.random.seed(case['np_seed'] + 1)      # ROMC.sample draws from the global generator
         with _quiet():
             romc.sample(n2, seed=case['np_seed'])
         th_all = np.asarray(romc.samples, dtype=float)
         w_all = np.asarray(romc.weights, dtype=float)
         d_all = np.asarray(romc.distances, dtype=float)
         if th_all.shape != (len(acc_idx), n2, dim) or w_all.shape != (len(acc_idx), n2) or d_all.size != len(acc_idx) * n2:
-            return bad('C19:pipeline:sample:shape', {'samples': list(th_all.shape), 'weights': list(w_all.shape)})
+            return bad('C19:%s:sample:shape' % tag, {'samples': list(th_all.shape), 'weights': list(w_all.shape)})
         d_all = d_all.reshape(len(acc_idx), n2)
         for k, i in enumerate(acc_idx):
             R, c, eff, margin = frames[k]
@@ -896,32 +879,69 @@ def run_pipe(case):
                 th = th_all[k, j]
                 sub = {'problem': i, 'draw': j, 'theta': th.tolist(), 'eps_cutoff': eps_c, 'local_surrogates': fit}
                 if ref.membership(R, c, eff, th, margin) < 0:
-                    return bad('C19:pipeline:sample:not-in-its-region', sub)
-                d = objs[i].value(th)
+                    return bad('C19:%s:sample:not-in-its-region' % tag, sub)
+                d = values[i](th.copy())
                 pr = ref.prior_ref(case['prior'], th)
                 gd, gw = float(d_all[k, j]), float(w_all[k, j])
                 sub.update(distance=d, got_distance=gd, got_weight=gw, prior_density=pr, region_volume=vol)
-                if (gd != d) if not fit else (abs(gd - d) > NEAR / 10):
+                if abs(gd - d) > (NEAR / 10 if fit else 1e-12 * max(1.0, abs(d))):
                     if fit:
                         return ok(outcome='local-surrogate-inaccurate', trivial=True, surrogate_inaccurate=1)
-                    return bad('C19:pipeline:sample:distance-not-objective-at-sample', sub)
-                if fit and abs(d - eps_c) <= NEAR:
+                    return bad('C19:%s:sample:distance-not-objective-at-sample' % tag, sub)
+                if abs(d - eps_c) <= (NEAR if fit else 0.0) and fit:
                     cands = (0.0, pr * vol)
                 else:
                     cands = ((pr * vol) if d < eps_c else 0.0,)
                 if not any(_close(gw, e, 1e-9 if fit else RTOL) for e in cands):
-                    return bad('C19:pipeline:sample:weight-not-indicator-times-prior-over-region-density',
+                    return bad('C19:%s:sample:weight-not-indicator-times-prior-over-region-density' % tag,
                                dict(sub, expected=list(cands)))
                 nz += gw > 0
         res = romc.result
         if not np.array_equal(np.asarray(res.weights), w_all.flatten()) or \
                 any(not np.array_equal(np.asarray(res.outputs[p_]), th_all[:, :, a].flatten())
                     for a, p_ in enumerate(romc.model_prior.parameter_names)):
-            return bad('C19:pipeline:result-object-weights-not-aligned-with-samples', {})
-    r = ok(outcome=digest((np.round(np.array(vals), 9), [f_[2] for f_ in frames])), accepted=len(acc_idx),
-           rejected=len(acc_ref) - len(acc_idx), pipeline_positive_weights=nz)
+            return bad('C19:%s:result-object-weights-not-aligned-with-samples' % tag, {})
+    r = ok(outcome=digest((np.round(np.array(vals), 9), [f_[2] for f_ in frames])),
+           **{tag + '_accepted': len(acc_idx), tag + '_rejected': len(acc_ref) - len(acc_idx),
+              tag + '_positive_weights': nz})
     r.update(evals=n, distinct=n)
     return r
+
+
+@guarded('C19')
+def run_pipe(case):
+    import elfi
+    from elfi.methods.inference.romc import RomcOptimisationResult
+    Problem = _problem_class()
+    dim = ref.PRIOR_DIM[case['prior']]
+    m = _romc_model(case['prior'], [0.0] * dim)
+    romc = elfi.ROMC(m, bounds=[(-3.0, 3.0)] * dim, discrepancy_name='d', custom_optim_class=Problem)
+    values, probs = [], []
+    nprob = len(case['problems'])
+    for ind, spec in enumerate(case['problems']):
+        f = _Quadratic(spec)
+        values.append(f)
+        pr = Problem(ind, ind + 1, list(romc.model_prior.parameter_names), 'd', f, dim, romc.model_prior, nprob,
+                     romc.bounds)
+        pr.state['attempted'] = True
+        if spec.get('solved', True):
+            pr.state['solved'] = True
+            pr.result = RomcOptimisationResult(f.c.copy(), f(f.c), 2.0 * f.A)
+        probs.append(pr)
+    # the state solve_problems leaves behind
+    romc.optim_problems = probs
+    romc.inference_args['N1'] = nprob
+    romc.inference_state['_has_solved_problems'] = True
+    romc.inference_state['attempted'] = [True] * nprob
+    romc.inference_state['solved'] = [bool(s.get('solved', True)) for s in case['problems']]
+    fit = bool(case['fit_models'])
+    np.random.seed(case['np_seed'])      # fit_local_surrogate draws its training points from the global generator
+    with _quiet():
+        romc.estimate_regions(eps_filter=float(case['eps_filter']), use_surrogate=False,
+                              region_args={'K': case['K'], 'eta': float(case['eta']), 'rep_lim': case['rep_lim']},
+                              fit_models=fit, fit_models_args={'nof_samples': case.get('nof_samples', 20)},
+                              eps_region=float(case['eps_region']), eps_cutoff=float(case['eps_cutoff']))
+    return _judge_romc('pipeline', case, romc, values, dim, fit, case['n2'])
 
 
 def _pipe_cases(q, base):
@@ -939,6 +959,8 @@ def _pipe_cases(q, base):
     ]
     ax1 = [[-3.0 + 0.25 * i for i in range(25)]]
     ax2 = [[-2.5 + 0.5 * i for i in range(11)], [-2.0 + 0.5 * i for i in range(9)]]
+    if q:
+        ax2 = [[-2.0 + 0.75 * i for i in range(6)], [-1.5 + 0.75 * i for i in range(5)]]
     cases = []
     for prior, P, axes in (('U1', P1, ax1), ('N1', P1, ax1), ('UN2', P2, ax2), ('H2', P2, ax2)):
         if q and prior in ('N1', 'UN2'):
@@ -946,11 +968,12 @@ def _pipe_cases(q, base):
         sels = []
         for r in (1, 2, 3):
             sels += list(itertools.combinations(range(len(P)), r))
-        if q:
-            sels = [s_ for s_ in sels if len(s_) != 2] if len(P) > 4 else sels
+        if q and len(P) > 4:
+            sels = [s_ for s_ in sels if len(s_) != 2]
         for sel in sels:
             for (K, eta, rep_lim) in ((3, 0.5, 5), (1, 1.0, 0)) if q else ((3, 0.5, 5), (1, 1.0, 0), (2, 0.25, 2), (5, 1.0, 3)):
-                for (ef, er, ec) in ((0.75, 1.0, 0.75), (1.0, 1.0, 0.5)) if q else ((0.75, 1.0, 0.75), (1.0, 1.0, 0.5), (3.0, 2.5, 1.0)):
+                for (ef, er, ec) in ((0.75, 1.0, 0.75), (1.0, 1.0, 0.5)) if q else \
+                        ((0.75, 1.0, 0.75), (1.0, 1.0, 0.5), (3.0, 2.5, 1.0)):
                     for fit in (False, True):
                         cases.append({'kind': 'pipe', 'prior': prior, 'problems': [P[i] for i in sel], 'K': K, 'eta': eta,
                                       'rep_lim': rep_lim, 'eps_filter': ef, 'eps_region': er, 'eps_cutoff': ec,
@@ -958,9 +981,58 @@ def _pipe_cases(q, base):
     return cases
 
 
+@guarded('C19')
+def run_e2e(case):
+    """A real ROMC run: nuisance seeds, optimiser, filtering, regions, posterior - judged by the definition."""
+    import elfi
+    Problem = _problem_class()
+    dim = ref.PRIOR_DIM[case['prior']]
+    names = ['t1', 't2'][:dim]
+    m = _romc_model(case['prior'], case['observed'])
+    romc = elfi.ROMC(m, bounds=[(-3.0, 3.0)] * dim, discrepancy_name='d', custom_optim_class=Problem)
+    fit = bool(case['fit_models'])
+    np.random.seed(case['np_seed'])
+    with _quiet():
+        romc.solve_problems(n1=case['n1'], seed=case['seed'])
+        romc.estimate_regions(eps_filter=float(case['eps_filter']), use_surrogate=False,
+                              region_args={'K': case['K'], 'eta': float(case['eta']), 'rep_lim': case['rep_lim']},
+                              fit_models=fit, fit_models_args={'nof_samples': 20},
+                              eps_region=float(case['eps_region']), eps_cutoff=float(case['eps_cutoff']))
+    if len(romc.optim_problems) != case['n1']:
+        return bad('C19:e2e:number-of-problems', {'n': len(romc.optim_problems)})
+    nuis = [int(p_.nuisance) for p_ in romc.optim_problems]
+    if len(set(nuis)) != len(nuis):
+        return ok(outcome='nuisance-collision', trivial=True)
+
+    def value_fn(seed):
+        # the distance of problem `seed` by definition: the model's discrepancy generated with that seed, squared
+        def value(th):
+            out = m.generate(1, outputs=['d'], with_values={k: np.array([float(th[a])]) for a, k in enumerate(names)},
+                             seed=seed)
+            return float(np.asarray(out['d']).reshape(-1)[0]) ** 2
+        return value
+    values = [value_fn(s_) for s_ in nuis]
+    return _judge_romc('e2e', case, romc, values, dim, fit, case['n2'])
+
+
+def _e2e_cases(q, base):
+    ax1 = [[-3.0 + 0.5 * i for i in range(13)]]
+    ax2 = [[-2.0 + 1.0 * i for i in range(5)], [-2.0 + 1.0 * i for i in range(5)]]
+    cases = []
+    for prior, axes, obs in (('U1', ax1, [0.5]), ('H2', ax2, [0.0, 0.5])) + (() if q else (('N1', ax1, [-1.0]), ('UN2', ax2, [1.0, 0.0]))):
+        for seed in [base + k for k in range(2 if q else 5)]:
+            for fit in (False, True):
+                for (K, eta, rep_lim, ef, er, ec) in ((3, 0.5, 5, 0.75, 1.0, 0.75),) if q else \
+                        ((3, 0.5, 5, 0.75, 1.0, 0.75), (2, 1.0, 1, 1e-9, 0.5, 2.0), (4, 0.25, 8, 1.0, 0.25, 0.25)):
+                    cases.append({'kind': 'e2e', 'prior': prior, 'observed': obs, 'n1': 3 if q else 4, 'seed': seed,
+                                  'fit_models': fit, 'K': K, 'eta': eta, 'rep_lim': rep_lim, 'eps_filter': ef,
+                                  'eps_region': er, 'eps_cutoff': ec, 'np_seed': base + 5, 'n2': 2, 'axes': axes})
+    return cases
+
+
 RUNNERS = {'bbox': run_bbox, 'ls_tree': run_ls_tree, 'ls_one': run_ls_one, 'build_tree': run_build_tree,
            'build_one': run_build_one, 'post': run_post,
-           'pipe': run_pipe}
+           'pipe': run_pipe, 'e2e': run_e2e}
 
 
 def replay(case):
@@ -988,24 +1060,38 @@ def _run_trees(ctx, runner, cases, section):
 
 
 def run(ctx):
+    import time
     q = ctx.quick
     base = ctx.seed * 1000
     only = ctx.only
+    walls = {}
 
-    def want(s):
-        return only is None or s in only
-    if want('bbox'):
+    def section(name, fn):
+        if only is not None and name not in only:
+            return
+        t0 = time.time()
+        fn()
+        walls[name] = round(time.time() - t0, 2)
+
+    def s_bbox():
         cases = _bbox_cases(q, base)
-        ctx.count(bbox_cases=len(cases))
-        ctx.run_cases(run_bbox, cases, 'bbox', sample_every=max(1, len(cases) // 4))
-    if want('linesearch'):
-        _run_trees(ctx, run_ls_tree, _ls_cases(q), 'linesearch')
-    if want('build'):
-        _run_trees(ctx, run_build_tree, _build_cases(q), 'build')
-    if want('posterior'):
+        ctx.run_cases(run_bbox, cases, 'bbox', sample_every=max(1, len(cases) // 3))
+
+    def s_post():
         cases = _post_cases(q, base)
-        ctx.run_cases(run_post, cases, 'posterior', sample_every=max(1, len(cases) // 4))
-    if want('pipeline'):
+        ctx.run_cases(run_post, cases, 'posterior', sample_every=max(1, len(cases) // 3))
+
+    def s_pipe():
         cases = _pipe_cases(q, base)
-        ctx.run_cases(run_pipe, cases, 'pipeline', sample_every=max(1, len(cases) // 4))
+        ctx.run_cases(run_pipe, cases, 'pipeline', sample_every=max(1, len(cases) // 2))
+
+    def s_e2e():
+        ctx.run_cases(run_e2e, _e2e_cases(q, base), 'e2e', chunksize=1)
+    section('e2e', s_e2e)          # few, long cases first
+    section('bbox', s_bbox)
+    section('linesearch', lambda: _run_trees(ctx, run_ls_tree, _ls_cases(q), 'linesearch'))
+    section('build', lambda: _run_trees(ctx, run_build_tree, _build_cases(q), 'build'))
+    section('posterior', s_post)
+    section('pipeline', s_pipe)
+    ctx.extra['section_wall_s'] = walls
     ctx.rule = 'todo'
